@@ -990,6 +990,13 @@ func (o *ovsdbClient) monitor(ctx context.Context, cookie MonitorCookie, reconne
 	} else {
 		args = ovsdb.NewMonitorArgs(dbName, cookie, requests)
 	}
+	// Notifications can overtake the reply to this request: buffer them until
+	// the initial contents have been applied. That also holds for an additional
+	// monitor on a connection whose first monitor was populated long ago.
+	db.cacheMutex.Lock()
+	db.deferUpdates = true
+	db.cacheMutex.Unlock()
+
 	var err error
 	var tableUpdates interface{}
 
@@ -1031,6 +1038,16 @@ func (o *ovsdbClient) monitor(ctx context.Context, cookie MonitorCookie, reconne
 				return o.monitor(ctx, cookie, reconnecting, monitor)
 			}
 		}
+		if !reconnecting {
+			// no monitor was added: go back to applying notifications as they
+			// arrive (a failed reconnect is retried with the deferral re-armed)
+			db.cacheMutex.Lock()
+			rerr := db.applyDeferredUpdates(cookie)
+			db.cacheMutex.Unlock()
+			if rerr != nil {
+				return fmt.Errorf("%v (and applying the notifications buffered meanwhile failed: %v)", err, rerr)
+			}
+		}
 		return err
 	}
 
@@ -1064,28 +1081,37 @@ func (o *ovsdbClient) monitor(ctx context.Context, cookie MonitorCookie, reconne
 		return err
 	}
 
+	return db.applyDeferredUpdates(cookie)
+}
+
+// applyDeferredUpdates stops buffering notifications and applies, in order of
+// arrival, the ones buffered so far. It must be called with cacheMutex held
+// exclusively and monitorsMutex held.
+func (db *database) applyDeferredUpdates(cookie MonitorCookie) error {
 	// populate any deferred updates
 	db.deferUpdates = false
 	for _, update := range db.deferredUpdates {
 		if update.updates != nil {
-			if err = db.cache.Populate(*update.updates); err != nil {
+			if err := db.cache.Populate(*update.updates); err != nil {
 				return err
 			}
 		}
 
 		if update.updates2 != nil {
-			if err = db.cache.Populate2(*update.updates2); err != nil {
+			if err := db.cache.Populate2(*update.updates2); err != nil {
 				return err
 			}
 		}
 		if len(update.lastTxnID) > 0 {
-			db.monitors[cookie.ID].LastTransactionID = update.lastTxnID
+			if mon, ok := db.monitors[cookie.ID]; ok {
+				mon.LastTransactionID = update.lastTxnID
+			}
 		}
 	}
 	// clear deferred updates for next time
 	db.deferredUpdates = make([]*bufferedUpdate, 0)
 
-	return err
+	return nil
 }
 
 // Echo tests the liveness of the OVSDB connetion
